@@ -6,6 +6,8 @@ import FileD.Spec.C19
 namespace FileD.Payload
 open FileD FileD.SpecC19
 
+/-! ### ForEach and the worker buffer -/
+
 /-- ForEach visits exactly the deliverable events, in order -/
 theorem forEach_eq_foldl {σ : Type} (cb : σ → Ev → σ) (evs : List Ev) (s : σ) :
     forEach cb evs s = (deliverable evs).foldl cb s := by
@@ -16,5 +18,239 @@ theorem forEach_eq_foldl {σ : Type} (cb : σ → Ev → σ) (evs : List Ev) (s 
     by_cases h : e.isChildParent
     · simp [h, deliverable, ih]
     · simp [h, deliverable, ih]
+
+theorem resetBuf_data (lim : Nat) (wd : WD) : (resetBuf lim wd).data = [] := by
+  cases wd with
+  | none => rfl
+  | some b => simp only [resetBuf]; split <;> simp
+
+theorem append_data (b : Buf) (x : Bytes) : (b.append x).data = b.data ++ x := rfl
+
+/-- a callback that appends `f e` to the buffer builds `flatMap f` -/
+theorem foldl_data (g : Buf → Ev → Buf) (f : Ev → Bytes) (hg : ∀ b e, (g b e).data = b.data ++ f e)
+    (l : List Ev) (b : Buf) : (l.foldl g b).data = b.data ++ l.flatMap f := by
+  induction l generalizing b with
+  | nil => simp
+  | cons e es ih => simp [List.foldl_cons, ih, hg, List.flatMap_cons]
+
+/-! ### separator framing -/
+
+theorem unframeSepGo_frame (sep : UInt8) (x : Bytes) (hx : sep ∉ x) (acc rest : Bytes) :
+    unframeSepGo sep acc (x ++ sep :: rest) = (unframeSepGo sep [] rest).map ((acc ++ x) :: ·) := by
+  induction x generalizing acc with
+  | nil => simp [unframeSepGo]
+  | cons b bs ih =>
+    have hb : b ≠ sep := by intro h; exact hx (by simp [h])
+    have hbs : sep ∉ bs := by intro h; exact hx (by simp [h])
+    simp [unframeSepGo, hb, ih hbs, List.append_assoc]
+
+theorem unframeSep_frames (sep : UInt8) (xs : List Bytes) (h : ∀ x ∈ xs, sep ∉ x) :
+    unframeSep sep (xs.flatMap (· ++ [sep])) = some xs := by
+  unfold unframeSep
+  induction xs with
+  | nil => simp [unframeSepGo]
+  | cons x xs ih =>
+    have hx : sep ∉ x := h x (by simp)
+    have hxs : ∀ y ∈ xs, sep ∉ y := fun y hy => h y (by simp [hy])
+    simp only [List.flatMap_cons, List.append_assoc, List.singleton_append]
+    rw [unframeSepGo_frame sep x hx, ih hxs]
+    simp
+
+theorem flatMap_sep (f : Ev → Bytes) (sep : UInt8) (l : List Ev) :
+    l.flatMap (fun e => f e ++ [sep]) = (l.map f).flatMap (· ++ [sep]) := by
+  induction l with
+  | nil => rfl
+  | cons e es ih => simp [List.flatMap_cons, ih]
+
+/-! ### the begin table and the split recursion -/
+
+/-- offsets of the frame boundaries: `n + 1` entries starting at `s` -/
+def offs : Nat → List Bytes → List Nat
+  | s, [] => [s]
+  | s, f :: fs => s :: offs (s + f.length) fs
+
+/-- the frames of events `l .. r-1` -/
+def seg (fs : List Bytes) (l r : Nat) : List Bytes := (fs.drop l).take (r - l)
+
+theorem offs_get (s : Nat) (fs : List Bytes) (i : Nat) (hi : i ≤ fs.length) :
+    (offs s fs)[i]? = some (s + (fs.take i).flatten.length) := by
+  induction fs generalizing s i with
+  | nil => simp at hi; subst hi; simp [offs]
+  | cons f fs ih =>
+    cases i with
+    | zero => simp [offs]
+    | succ i =>
+      simp only [offs, List.getElem?_cons_succ, List.take_succ_cons, List.flatten_cons, List.length_append]
+      rw [ih (s + f.length) i (by simpa using hi)]
+      simp [Nat.add_assoc]
+
+theorem flatten_split (fs : List Bytes) (l r : Nat) (hlr : l ≤ r) :
+    (fs.take r).flatten = (fs.take l).flatten ++ (seg fs l r).flatten := by
+  have : fs.take r = fs.take l ++ seg fs l r := by
+    unfold seg
+    have h1 : fs.take r = (fs.take l ++ fs.drop l).take r := by rw [List.take_append_drop]
+    rw [h1, List.take_append]
+    have : (fs.take l).length ≤ r := by simp; omega
+    rw [List.take_of_length_le this]
+    congr 1
+    simp only [List.length_take]
+    by_cases h : l ≤ fs.length
+    · rw [Nat.min_eq_left h]
+    · have h' : fs.length ≤ l := by omega
+      rw [Nat.min_eq_right h', List.drop_of_length_le h']; simp
+  rw [this, List.flatten_append]
+
+theorem sliceBE_offs (fs : List Bytes) (l r : Nat) (hlr : l ≤ r) (hr : r ≤ fs.length) :
+    sliceBE fs.flatten (offs 0 fs) l r = .ok (seg fs l r).flatten := by
+  have hl : l ≤ fs.length := by omega
+  have e1 : GoSlice.idx? (offs 0 fs) (l : Int) = .ok (fs.take l).flatten.length := by
+    simp [GoSlice.idx?, offs_get 0 fs l hl]
+  have e2 : GoSlice.idx? (offs 0 fs) (r : Int) = .ok (fs.take r).flatten.length := by
+    simp [GoSlice.idx?, offs_get 0 fs r hr]
+  have hsplit := flatten_split fs l r hlr
+  have hall : fs.flatten = (fs.take r).flatten ++ (fs.drop r).flatten := by
+    rw [← List.flatten_append, List.take_append_drop]
+  have hle : (fs.take l).flatten.length ≤ (fs.take r).flatten.length := by
+    have := congrArg List.length hsplit; rw [List.length_append] at this; omega
+  have hle2 : (fs.take r).flatten.length ≤ fs.flatten.length := by
+    have := congrArg List.length hall; rw [List.length_append] at this; omega
+  unfold sliceBE
+  simp only [e1, e2, bind, Except.bind, GoSlice.slice?]
+  rw [if_pos (by omega)]
+  congr 1
+  simp only [Int.toNat_natCast]
+  rw [hall, hsplit]
+  simp
+
+def delivered (reqs : List Req) : Bytes :=
+  (reqs.filter (fun q => isOkStatus q.status || (q.status == 413 && q.n == 1))).flatMap (·.body)
+
+theorem delivered_append (a b : List Req) : delivered (a ++ b) = delivered a ++ delivered b := by
+  simp [delivered, List.filter_append, List.flatMap_append]
+
+theorem seg_flatten_split (fs : List Bytes) (l m r : Nat) (h1 : l ≤ m) (h2 : m ≤ r) :
+    (seg fs l r).flatten = (seg fs l m).flatten ++ (seg fs m r).flatten := by
+  have a := flatten_split fs l r (by omega)
+  have b := flatten_split fs l m h1
+  have c := flatten_split fs m r h2
+  rw [c, b, List.append_assoc] at a
+  exact (List.append_cancel_left a).symm
+
+
+theorem seg_self (fs : List Bytes) (l : Nat) : seg fs l l = [] := by simp [seg]
+
+theorem split_covers (fs : List Bytes) :
+    ∀ fuel l r sc res, l ≤ r → r ≤ fs.length → r - l ≤ fuel →
+      sendSplit fuel l r (offs 0 fs) fs.flatten sc = .ok res →
+      (res.err = false ∨ res.code = 413) →
+      delivered res.reqs = (seg fs l r).flatten := by
+  intro fuel
+  induction fuel with
+  | zero =>
+    intro l r sc res hlr hr hf h _
+    have : l = r := by omega
+    subst this
+    unfold sendSplit at h
+    simp at h
+    subst h
+    simp [delivered, seg_self]
+  | succ n ih =>
+    intro l r sc res hlr hr hf h hgood
+    unfold sendSplit at h
+    by_cases hEq : l = r
+    · subst hEq
+      simp at h
+      subst h
+      simp [delivered, seg_self]
+    · simp only [hEq, if_false, sliceBE_offs fs l r hlr hr] at h
+      split at h
+      · -- accepted
+        simp at h; subst h
+        rename_i hok
+        simp [delivered, hok]
+      · split at h
+        · rename_i hnok h413
+          split at h
+          · -- a single event refused
+            rename_i h1
+            simp at h; subst h
+            simp [delivered, h413, h1]
+          · rename_i h1
+            have hm1 : l ≤ (l + r) / 2 := by omega
+            have hm2 : (l + r) / 2 ≤ r := by omega
+            split at h
+            · simp at h
+            · rename_i lres hl
+              split at h
+              · -- left half failed for another reason: the result is not committed
+                rename_i hbad
+                simp at h; subst h
+                simp at hbad
+                simp at hgood
+                exact absurd hgood hbad.2
+              · rename_i hlgood
+                have hlg : lres.err = false ∨ lres.code = 413 := by
+                  cases he : lres.err with
+                  | false => exact Or.inl rfl
+                  | true => right; simp [he] at hlgood; exact hlgood
+                have ihl := ih l ((l + r) / 2) _ lres hm1 (by omega) (by omega) hl hlg
+                split at h
+                · simp at h
+                · rename_i rres hr'
+                  have whole : delivered [({ status := (nextStatus 200 sc).1, body := (seg fs l r).flatten, n := r - l } : Req)] = [] := by
+                    simp [delivered, h413, h1]
+                    intro hh; simp [isOkStatus] at hh
+                  split at h
+                  · rename_i hrerr
+                    simp at h; subst h
+                    have hrg : rres.err = false ∨ rres.code = 413 := by
+                      right; simpa using hgood
+                    have ihr := ih ((l + r) / 2) r _ rres hm2 hr (by omega) hr' hrg
+                    rw [show ({ status := (nextStatus 200 sc).1, body := (seg fs l r).flatten, n := r - l } : Req) :: (lres.reqs ++ rres.reqs)
+                          = [({ status := (nextStatus 200 sc).1, body := (seg fs l r).flatten, n := r - l } : Req)] ++ (lres.reqs ++ rres.reqs) from rfl]
+                    rw [delivered_append, delivered_append, whole, ihl, ihr, List.nil_append,
+                      ← seg_flatten_split fs l _ r hm1 hm2]
+                  · rename_i hrok
+                    simp at h; subst h
+                    have hrg : rres.err = false ∨ rres.code = 413 := by
+                      left; simpa using hrok
+                    have ihr := ih ((l + r) / 2) r _ rres hm2 hr (by omega) hr' hrg
+                    rw [show ({ status := (nextStatus 200 sc).1, body := (seg fs l r).flatten, n := r - l } : Req) :: (lres.reqs ++ rres.reqs)
+                          = [({ status := (nextStatus 200 sc).1, body := (seg fs l r).flatten, n := r - l } : Req)] ++ (lres.reqs ++ rres.reqs) from rfl]
+                    rw [delivered_append, delivered_append, whole, ihl, ihr, List.nil_append,
+                      ← seg_flatten_split fs l _ r hm1 hm2]
+        · -- any other status: not committed
+          rename_i hnok hn413
+          simp at h; subst h
+          simp at hgood
+          exact absurd hgood hn413
+
+
+/-! ### the ForEach loop of elasticsearch / http builds the frames and their begin table -/
+
+theorem acc_foldl (fr : Ev → Bytes) (l : List Ev) (a : Acc) :
+    (l.foldl (accStep fr) a).buf.data = a.buf.data ++ (l.map fr).flatten ∧
+    (l.foldl (accStep fr) a).count = a.count + l.length ∧
+    (l.foldl (accStep fr) a).begin ++ [(l.foldl (accStep fr) a).buf.data.length]
+      = a.begin ++ offs a.buf.data.length (l.map fr) := by
+  induction l generalizing a with
+  | nil => simp [offs]
+  | cons e es ih =>
+    have := ih (accStep fr a e)
+    simp only [List.foldl_cons, List.map_cons, List.flatten_cons, List.length_cons]
+    refine ⟨?_, ?_, ?_⟩
+    · rw [this.1]; simp [accStep, Buf.append, List.append_assoc]
+    · rw [this.2.1]; simp [accStep]; omega
+    · rw [this.2.2]; simp [accStep, Buf.append, offs, List.append_assoc]
+
+theorem buildAcc_spec (fr : Ev → Bytes) (lim : Nat) (wd : WD) (batch : List Ev) :
+    (buildAcc fr lim wd batch).buf.data = ((deliverable batch).map fr).flatten ∧
+    (buildAcc fr lim wd batch).count = (deliverable batch).length ∧
+    (buildAcc fr lim wd batch).begin ++ [(buildAcc fr lim wd batch).buf.data.length]
+      = offs 0 ((deliverable batch).map fr) := by
+  unfold buildAcc
+  rw [forEach_eq_foldl]
+  have := acc_foldl fr (deliverable batch) ⟨resetBuf lim wd, [], 0⟩
+  simpa [resetBuf_data] using this
 
 end FileD.Payload
